@@ -243,6 +243,43 @@ def audit_after_kill(case, run, n, event_hint=""):
                     viols.append(Viol("kill:check-keeps-mismatch",
                                       f"after kill at event {n}: check() rejected {oid} but left the file"))
         shutil.rmtree(cp, ignore_errors=True)
+    # (e) ... also when that "next integrity check" is the one a transfer runs on its SENDER: the crashed
+    # store is used as the source of a store->store transfer of everything it names (closed request);
+    # nothing mismatching may arrive in the receiving store
+    if mismatching and not viols:
+        cp = os.path.join(run, "store-as-sender")
+        shutil.copytree(store, cp, symlinks=True)
+        recv = os.path.join(run, "receiver")
+        ids = sorted(objs)
+
+        def push_on():
+            from dvc_objects.fs.local import LocalFileSystem
+
+            from dvc_data.hashfile.db.local import LocalHashFileDB
+            from dvc_data.hashfile.hash_info import HashInfo
+            from dvc_data.hashfile.state import State
+            from dvc_data.hashfile.transfer import transfer
+
+            st_ = State(root_dir=run, tmp_dir=os.path.join(run, "tmp-recv"))
+            try:
+                fs = LocalFileSystem()
+                transfer(LocalHashFileDB(fs, cp), LocalHashFileDB(fs, recv, state=st_),
+                         {HashInfo("md5", x) for x in ids}, shallow=True)
+            finally:
+                st_.close()
+
+        status, _, _ = crash.run_child(push_on, run)
+        if not status.startswith(("done", "error")):
+            viols.append(Viol("kill:sender-transfer-died", f"after kill at event {n}: follow-up transfer: {status[:200]}"))
+        for oid, pth in sorted(ref.walk_store(recv)[0].items()):
+            why = ref.audit_object(oid, ref.read(pth))
+            if why:
+                viols.append(Viol("kill:leftover-sent-on",
+                                  f"after kill at event {n}: the store was used as the sender of a transfer and "
+                                  f"the receiver now holds a mismatching object: {why}"))
+                break
+        shutil.rmtree(cp, ignore_errors=True)
+        shutil.rmtree(recv, ignore_errors=True)
     return viols, len(temps), len(mismatching)
 
 
